@@ -557,4 +557,235 @@ example : letI := fieldNum ℚ id
     (0 : ℚ) < (HalfSpace3.mk ⟨0,1,0⟩ : HalfSpace3 ℚ).n.dot (⟨0,2,0⟩ : V3 ℚ) ∧ (0:ℚ) ≤ 7 := by
   simp only [V3.dot]; norm_num
 
+/-! ## Triangle, 3-D (`local_ray_intersection_with_triangle`, origin-on-plane branch corrected) -/
+
+/-- **Triangle (3-D), a reported hit is sound**, for any non-unit direction: `toi ≥ 0`, the barycentric coordinates
+are those of a point of the triangle (`≥ 0`, sum 1), the hit point `o + toi·d` *is* that point
+`a + β(b−a) + γ(c−a)`, the ray is not parallel to the plane and `toi` is the unique plane-crossing parameter
+(`toi·(n·d) = −(o−a)·n`). -/
+theorem triangle_inter_sound (a b c : V3 K) (ray : Ray3 K) (h : Hit3 K) (bary : V3 K) :
+    letI := fieldNum K sq
+    localRayIntersectionWithTriangle a b c ray = some (h, bary) →
+    0 ≤ h.toi ∧ 0 ≤ bary.y ∧ 0 ≤ bary.z ∧ bary.y + bary.z ≤ 1 ∧ bary.x = 1 - bary.y - bary.z ∧
+    rayPt sq ray h.toi = (a.add ((b.sub a).smul bary.y)).add ((c.sub a).smul bary.z) ∧
+    triD sq a b c ray ≠ 0 ∧ h.toi * triD sq a b c ray = -triT sq a b c ray := by
+  rw [tri_model_eq]
+  have pid := tri_point_identity sq a b c ray
+  generalize triD sq a b c ray = d0 at *
+  generalize triT sq a b c ray = t0 at *
+  generalize triVs sq a b c ray = vs at *
+  generalize triWs sq a b c ray = ws at *
+  obtain ⟨ax, ay, az⟩ := a; obtain ⟨bx, b_y, bz⟩ := b; obtain ⟨cx, cy, cz⟩ := c
+  obtain ⟨⟨ox, oy, oz⟩, ⟨dx, dy, dz⟩⟩ := ray
+  simp only [V3.add, V3.sub, V3.smul, V3.mk.injEq] at pid
+  obtain ⟨px, py, pz⟩ := pid
+  simp only []
+  intro hres
+  split_ifs at hres with h0 h1 h2 h3 h4 h5 h6
+  · -- d0 < 0
+    push Not at h3 h4 h1
+    have hd : d0 < 0 := h2
+    have habs : |d0| = -d0 := abs_of_neg hd
+    rw [habs] at hres h3 h4
+    have ht : 0 ≤ t0 := by
+      by_contra hc; push Not at hc; exact absurd hd (not_lt.2 (h1.1 hc))
+    simp only [Option.some.injEq, Prod.mk.injEq] at hres
+    obtain ⟨rfl, rfl⟩ := hres
+    simp only [rayPt, Ray3.pointAt, V3.add, V3.sub, V3.smul, V3.mk.injEq]
+    have hnd : 0 < -d0 := neg_pos.2 hd
+    have hi : 0 < 1 / -d0 := one_div_pos.2 hnd
+    have hne : d0 ≠ 0 := h0
+    refine ⟨mul_nonneg ht hi.le, mul_nonneg h3.1 hi.le, mul_nonneg h4.1 hi.le, ?_, by ring, ⟨?_, ?_, ?_⟩, h0, ?_⟩
+    · have : -vs * (1 / -d0) + -ws * (1 / -d0) = (-vs + -ws) / -d0 := by ring
+      rw [this, div_le_one hnd]; exact h4.2
+    · field_simp; linear_combination px
+    · field_simp; linear_combination py
+    · field_simp; linear_combination pz
+    · field_simp
+
+  · -- d0 > 0
+    push Not at h2 h5 h6 h1
+    have hd : 0 < d0 := lt_of_le_of_ne h2 (Ne.symm h0)
+    have habs : |d0| = d0 := abs_of_pos hd
+    rw [habs] at hres h5 h6
+    have ht : t0 ≤ 0 := by
+      by_contra hc; push Not at hc; exact absurd hd (not_lt.2 (h1.2 hc))
+    simp only [Option.some.injEq, Prod.mk.injEq] at hres
+    obtain ⟨rfl, rfl⟩ := hres
+    simp only [rayPt, Ray3.pointAt, V3.add, V3.sub, V3.smul, V3.mk.injEq]
+    have hi : 0 < 1 / d0 := one_div_pos.2 hd
+    refine ⟨by nlinarith, mul_nonneg h5.1 hi.le, mul_nonneg h6.1 hi.le, ?_, by ring, ⟨?_, ?_, ?_⟩, h0, ?_⟩
+    · have : vs * (1 / d0) + ws * (1 / d0) = (vs + ws) / d0 := by ring
+      rw [this, div_le_one hd]; exact h6.2
+    · field_simp; linear_combination px
+    · field_simp; linear_combination py
+    · field_simp; linear_combination pz
+    · field_simp
+
+/-- **Triangle (3-D), uniqueness**: when a hit is reported, its parameter is the *only* parameter (of the whole line) at
+which the ray is in the triangle — so it is in particular the first one. -/
+theorem triangle_inter_unique (a b c : V3 K) (ray : Ray3 K) (h : Hit3 K) (bary : V3 K) (s : K) :
+    letI := fieldNum K sq
+    localRayIntersectionWithTriangle a b c ray = some (h, bary) →
+    (Triangle3.mk a b c).Mem (rayPt sq ray s) → s = h.toi := by
+  intro hres ⟨u, v, _, _, _, hp⟩
+  obtain ⟨_, _, _, _, _, _, hd, ht⟩ := triangle_inter_sound sq a b c ray h bary hres
+  obtain ⟨e1, _, _⟩ := tri_mem_facts sq a b c ray s u v hp
+  have : (s - h.toi) * triD sq a b c ray = 0 := by linear_combination e1 - ht
+  rcases mul_eq_zero.1 this with h' | h'
+  · linarith
+  · exact absurd h' hd
+
+/-- **Triangle (3-D), `None` is sound** unless the ray lies in the triangle's plane (`n·d = 0 ∧ (o−a)·n = 0`, the
+coplanar case the algorithm gives up on — KNOWN_FINDINGS): no point of the ray `[0,∞)` is in the triangle. -/
+theorem triangle_inter_none_partial (a b c : V3 K) (ray : Ray3 K) :
+    letI := fieldNum K sq
+    localRayIntersectionWithTriangle a b c ray = none →
+    ¬ (triD sq a b c ray = 0 ∧ triT sq a b c ray = 0) →
+    ∀ s, 0 ≤ s → ¬ (Triangle3.mk a b c).Mem (rayPt sq ray s) := by
+  intro hres hnc s hs ⟨u, v, hu, hv, huv, hp⟩
+  obtain ⟨e1, e2, e3⟩ := tri_mem_facts sq a b c ray s u v hp
+  rw [tri_model_eq] at hres
+  generalize triD sq a b c ray = d0 at *
+  generalize triT sq a b c ray = t0 at *
+  generalize triVs sq a b c ray = vs at *
+  generalize triWs sq a b c ray = ws at *
+  simp only [] at hres
+  subst e2 e3
+  split_ifs at hres with h0 h1 h2 h3 h4 h5 h6
+  · exact hnc ⟨h0, by rw [h0] at e1; linarith⟩
+  · rcases h1 with ⟨a1, a2⟩ | ⟨a1, a2⟩
+    · nlinarith [mul_nonneg hs (neg_nonneg.2 a2.le)]
+    · nlinarith [mul_nonneg hs a2.le]
+  · -- d0 < 0, first barycentric test fails
+    rw [abs_of_neg h2] at h3
+    rcases h3 with h3 | h3 <;> nlinarith [mul_nonneg hu (neg_nonneg.2 h2.le), mul_nonneg (sub_nonneg.2 (le_trans (le_add_of_nonneg_right hv) huv)) (neg_nonneg.2 h2.le)]
+  · rw [abs_of_neg h2] at h4
+    rcases h4 with h4 | h4 <;> nlinarith [mul_nonneg hv (neg_nonneg.2 h2.le), mul_nonneg (sub_nonneg.2 huv) (neg_nonneg.2 h2.le)]
+  · have hd : 0 < d0 := lt_of_le_of_ne (not_lt.1 h2) (Ne.symm h0)
+    rw [abs_of_pos hd] at h5
+    rcases h5 with h5 | h5 <;> nlinarith [mul_nonneg hu hd.le, mul_nonneg (sub_nonneg.2 (le_trans (le_add_of_nonneg_right hv) huv)) hd.le]
+  · have hd : 0 < d0 := lt_of_le_of_ne (not_lt.1 h2) (Ne.symm h0)
+    rw [abs_of_pos hd] at h6
+    rcases h6 with h6 | h6 <;> nlinarith [mul_nonneg hv hd.le, mul_nonneg (sub_nonneg.2 huv) hd.le]
+
+/-- the full-strength statement for the 3-D triangle (no side condition). It is **false** for the code (rays lying in
+the triangle's plane are reported as misses), see `triangle_cast_firstHit_partial` and KNOWN_FINDINGS. -/
+def triangle_cast_firstHit_full : Prop :=
+  ∀ (s : Triangle3 K) (ray : Ray3 K) (max : K) (solid : Bool),
+    letI := fieldNum K sq
+    FirstHit s.Mem (rayPt sq ray) max ((s.castLocalRayAndGetNormal ray max solid).map (·.toi))
+
+/-- **Triangle::cast_local_ray_and_get_normal (3-D)**: for every ray that does not lie in the triangle's plane (any
+non-unit direction, both `solid` flags, every `max_toi`), the reported time is the first parameter of `[0,max_toi]` in the
+triangle, and `None` means the segment misses the triangle.  Gap to `triangle_cast_firstHit_full`: coplanar rays. -/
+theorem triangle_cast_firstHit_partial (s : Triangle3 K) (ray : Ray3 K) (max : K) (solid : Bool) :
+    letI := fieldNum K sq
+    ¬ (triD sq s.a s.b s.c ray = 0 ∧ triT sq s.a s.b s.c ray = 0) →
+    FirstHit s.Mem (rayPt sq ray) max ((s.castLocalRayAndGetNormal ray max solid).map (·.toi)) := by
+  intro hnc
+  obtain ⟨a, b, c⟩ := s
+  simp only [Triangle3.castLocalRayAndGetNormal]
+  cases hres : @localRayIntersectionWithTriangle K (fieldNum K sq) a b c ray with
+  | none =>
+    exact fun u hu _ => triangle_inter_none_partial sq a b c ray hres hnc u hu
+  | some p =>
+    obtain ⟨h, bary⟩ := p
+    have snd := triangle_inter_sound sq a b c ray h bary hres
+    have unq := triangle_inter_unique sq a b c ray h bary
+    simp only
+    by_cases hm : h.toi ≤ max
+    · rw [if_pos hm]
+      refine ⟨snd.1, hm, ⟨bary.y, bary.z, snd.2.1, snd.2.2.1, snd.2.2.2.1, snd.2.2.2.2.2.1⟩, ?_⟩
+      intro u _ hut hmem
+      exact absurd (unq u hres hmem) (ne_of_lt hut)
+    · rw [if_neg hm]
+      intro u _ hum hmem
+      have := unq u hres hmem
+      rw [this] at hum; exact hm hum
+
+/-- **Triangle normal (3-D).** With a lawful square root: a reported normal is a unit vector, collinear with the triangle's
+normal `n = (b−a)×(c−a)` (`normal·|n| = ±n`), oriented against the ray: `normal·d < 0`. -/
+theorem triangle_normal_spec (hs : LawfulSqrt sq) (a b c : V3 K) (ray : Ray3 K) (h : Hit3 K) (bary : V3 K) :
+    letI := fieldNum K sq
+    localRayIntersectionWithTriangle a b c ray = some (h, bary) →
+    h.n.normSq = 1 ∧ h.n.dot ray.d < 0 ∧
+    (h.n.smul (triN sq a b c).norm = triN sq a b c ∨ h.n.smul (triN sq a b c).norm = (triN sq a b c).neg) := by
+  intro hres
+  have hd := (triangle_inter_sound sq a b c ray h bary hres).2.2.2.2.2.2.1
+  rw [tri_model_eq] at hres
+  have hdn : triD sq a b c ray = @V3.dot K (fieldNum K sq) (triN sq a b c) ray.d := rfl
+  generalize triN sq a b c = n at *
+  -- |n| > 0
+  have hnn : 0 < @V3.normSq K (fieldNum K sq) n := by
+    have h0 : 0 ≤ @V3.normSq K (fieldNum K sq) n := by
+      simp only [V3.normSq, V3.dot]; nlinarith [mul_self_nonneg n.x, mul_self_nonneg n.y, mul_self_nonneg n.z]
+    rcases eq_or_lt_of_le h0 with h | h
+    · exfalso; apply hd; rw [hdn]
+      simp only [V3.normSq, V3.dot] at h
+      have hx : n.x = 0 := by nlinarith [mul_self_nonneg n.x, mul_self_nonneg n.y, mul_self_nonneg n.z]
+      have hy : n.y = 0 := by nlinarith [mul_self_nonneg n.x, mul_self_nonneg n.y, mul_self_nonneg n.z]
+      have hz : n.z = 0 := by nlinarith [mul_self_nonneg n.x, mul_self_nonneg n.y, mul_self_nonneg n.z]
+      simp only [V3.dot, hx, hy, hz]; ring
+    · exact h
+  have hw0 : 0 ≤ sq (@V3.normSq K (fieldNum K sq) n) := hs.nonneg _ hnn.le
+  have hww : sq (@V3.normSq K (fieldNum K sq) n) * sq (@V3.normSq K (fieldNum K sq) n) = @V3.normSq K (fieldNum K sq) n := hs.sq_mul _ hnn.le
+  have hnorm : @V3.norm K (fieldNum K sq) n = sq (@V3.normSq K (fieldNum K sq) n) := rfl
+  have hwpos : 0 < sq (@V3.normSq K (fieldNum K sq) n) := by
+    rcases eq_or_lt_of_le hw0 with h | h
+    · rw [← h] at hww; linarith
+    · exact h
+  generalize triD sq a b c ray = d0 at *
+  generalize triT sq a b c ray = t0 at *
+  generalize triVs sq a b c ray = vs at *
+  generalize triWs sq a b c ray = ws at *
+  simp only [] at hres
+  rw [hnorm]
+  generalize sq (@V3.normSq K (fieldNum K sq) n) = w at *
+  have hne : w ≠ 0 := ne_of_gt hwpos
+  obtain ⟨nx, ny, nz⟩ := n
+  split_ifs at hres with h0 h1 h2 h3 h4 h5 h6
+  · simp only [Option.some.injEq, Prod.mk.injEq] at hres
+    obtain ⟨rfl, _⟩ := hres
+    simp only [V3.normalize, V3.norm, V3.sdiv, V3.smul, V3.normSq, V3.dot, V3.neg, V3.mk.injEq] at *
+    simp only [hnorm]
+    refine ⟨?_, ?_, Or.inl ⟨by field_simp, by field_simp, by field_simp⟩⟩
+    · field_simp; linarith
+    · have : nx / w * ray.d.x + ny / w * ray.d.y + nz / w * ray.d.z = d0 / w := by rw [hdn]; field_simp
+      rw [this]; exact div_neg_of_neg_of_pos h2 hwpos
+  · have hd0 : 0 < d0 := lt_of_le_of_ne (not_lt.1 h2) (Ne.symm h0)
+    simp only [Option.some.injEq, Prod.mk.injEq] at hres
+    obtain ⟨rfl, _⟩ := hres
+    simp only [V3.normalize, V3.norm, V3.sdiv, V3.smul, V3.normSq, V3.dot, V3.neg, V3.mk.injEq] at *
+    simp only [hnorm]
+    refine ⟨?_, ?_, Or.inr ⟨by field_simp, by field_simp, by field_simp⟩⟩
+    · field_simp; linarith
+    · have : -(nx / w) * ray.d.x + -(ny / w) * ray.d.y + -(nz / w) * ray.d.z = -(d0 / w) := by rw [hdn]; field_simp; ring
+      rw [this]; exact neg_neg_of_pos (div_pos hd0 hwpos)
+
+
+/-- **`toi_units`, Triangle (3-D)** (rays not lying in the triangle's plane). -/
+theorem triangle_toi_units (s : Triangle3 K) (ray : Ray3 K) (l max : K) (solid : Bool) (hl : 0 < l) :
+    letI := fieldNum K sq
+    ¬ (triD sq s.a s.b s.c ray = 0 ∧ triT sq s.a s.b s.c ray = 0) →
+    (s.castLocalRayAndGetNormal ⟨ray.o, ray.d.smul l⟩ (max / l) solid).map (·.toi)
+      = ((s.castLocalRayAndGetNormal ray max solid).map (·.toi)).map (· / l) := by
+  intro hnc
+  have hD : triD sq s.a s.b s.c ⟨ray.o, @V3.smul K (fieldNum K sq) ray.d l⟩ = l * triD sq s.a s.b s.c ray := by
+    simp only [triD, triN, V3.dot, V3.smul, V3.cross, V3.sub]; ring
+  have hT : triT sq s.a s.b s.c ⟨ray.o, @V3.smul K (fieldNum K sq) ray.d l⟩ = triT sq s.a s.b s.c ray := rfl
+  have hnc' : ¬ (triD sq s.a s.b s.c ⟨ray.o, @V3.smul K (fieldNum K sq) ray.d l⟩ = 0 ∧
+      triT sq s.a s.b s.c ⟨ray.o, @V3.smul K (fieldNum K sq) ray.d l⟩ = 0) := by
+    rw [hD, hT]; rintro ⟨h1, h2⟩
+    rcases mul_eq_zero.1 h1 with h | h
+    · exact absurd h (ne_of_gt hl)
+    · exact hnc ⟨h, h2⟩
+  exact toi_units_of_firstHit sq _ ray l max hl _ _ (triangle_cast_firstHit_partial sq s ray max solid hnc)
+    (triangle_cast_firstHit_partial sq s ⟨ray.o, @V3.smul K (fieldNum K sq) ray.d l⟩ (max / l) solid hnc')
+
+/-- non-vacuity (triangle): a ray of direction length 3 crossing the plane of the unit right triangle (`n·d = −3 ≠ 0`) -/
+example : ¬ (triD id (⟨0,0,0⟩ : V3 ℚ) ⟨1,0,0⟩ ⟨0,1,0⟩ ⟨⟨1/4,1/4,2⟩, ⟨0,0,-3⟩⟩ = 0 ∧
+    triT id (⟨0,0,0⟩ : V3 ℚ) ⟨1,0,0⟩ ⟨0,1,0⟩ ⟨⟨1/4,1/4,2⟩, ⟨0,0,-3⟩⟩ = 0) := by
+  simp only [triD, triT, triN, V3.dot, V3.cross, V3.sub]; norm_num
+
 end C04
